@@ -95,6 +95,7 @@ MUTANTS["C02"] = [
     # (taking ACL children rules from the first match only narrows the filter: a C06 break, not a C02 one)
     ("empty-acl-means-no-acl", "annet/gen.py", "        if not ctx.args.no_acl:\n            acl_rules = generators.compile_acl_text(res.acl_text(), device.hw.vendor)", "        if not ctx.args.no_acl and res.acl_text():\n            acl_rules = generators.compile_acl_text(res.acl_text(), device.hw.vendor)"),
     # (not filtering old in _old_new_per_device is an equivalent mutant: _diff_and_patch filters old again)
+    ("juniper-acl-row-loses-its-delete-word", "annet/annlib/patching.py", '        row = jun_activate(row)\n    return row', '        row = jun_activate(row)\n        if row.startswith("delete ") and len(row) > 7:\n            row = row[7:]\n    return row'),
 ]
 
 MUTANTS["C02"] += [
